@@ -194,12 +194,12 @@ func (ff *FuncFacts) factsAtForeign(blk *ssa.BasicBlock) []Fact {
 				if i == 0 {
 					add(f)
 				} else {
-					add(liftFactAlong(ch[:i], f, ff.conv))
+					add(liftFactAlong(ch[:i], c.Parent(), f, ff.conv))
 				}
 			}
 		}
 		for _, f := range factsOfMode(target, ff.conv).FactsAt(blk) {
-			add(liftFactAlong(ch, f, ff.conv))
+			add(liftFactAlong(ch, target, f, ff.conv))
 		}
 		if common == nil {
 			common, order = here, ord
@@ -221,13 +221,8 @@ func (ff *FuncFacts) factsAtForeign(blk *ssa.BasicBlock) []Fact {
 }
 
 // liftFactAlong substitutes parameters innermost call first.
-func liftFactAlong(ch []*ssa.Call, f Fact, conv bool) Fact {
-	sub := func(t *Term) *Term {
-		for i := len(ch) - 1; i >= 0; i-- {
-			t = substParams(t, argTerms(newTBMode(conv), ch[i]))
-		}
-		return t
-	}
+func liftFactAlong(ch []*ssa.Call, target *ssa.Function, f Fact, conv bool) Fact {
+	sub := func(t *Term) *Term { return substAlong(ch, target, t, conv) }
 	if f.IsCmp {
 		f.L, f.R = sub(f.L), sub(f.R)
 	} else {
@@ -683,6 +678,11 @@ func (ps *pathSearch) run(b0 *ssa.BasicBlock, start int, depth int) []*ssa.Basic
 					return true, nil
 				}
 			}
+			for _, cl := range closuresRunAt(in) {
+				if depth < maxHelperDepth && !ps.helperPasses(cl, depth) {
+					return true, nil
+				}
+			}
 			if r, ok := in.(*ssa.Return); ok {
 				if ps.retOK == nil || ps.retOK(r) {
 					return false, r
@@ -770,6 +770,22 @@ func callSitesOfHelper(g *ssa.Function) []*ssa.Call {
 		return v
 	}
 	var out []*ssa.Call
+	if g.Parent() != nil {
+		// a function literal "is called" where it is handed to the helper that runs it, or
+		// where it is invoked on the spot
+		out = append(out, runByNewHelper(g)...)
+		for _, b := range g.Parent().Blocks {
+			for _, in := range b.Instrs {
+				if c, ok := in.(*ssa.Call); ok {
+					if mc, ok := c.Common().Value.(*ssa.MakeClosure); ok && mc.Fn == ssa.Value(g) {
+						out = append(out, c)
+					}
+				}
+			}
+		}
+		helperSitesMemo[g] = out
+		return out
+	}
 	if theProgram != nil {
 		for _, f := range theProgram.OwnFuncs {
 			if !IsProd(f) {
@@ -908,10 +924,27 @@ func instrReachesAvoiding(a, b, avoid ssa.Instruction) bool {
 // cannot be entered without passing such an edge. Generalises FactsAt (one dominating edge)
 // to joins of alternatives (a || b, if/else arms that meet again).
 func (ff *FuncFacts) EveryPathHas(blk *ssa.BasicBlock, ok func(Fact) bool) bool {
+	return ff.EveryPathHasOr(blk, ok, nil)
+}
+
+// EveryPathHasOr: as EveryPathHas, and a path also counts when it executes an instruction
+// accepted by instrOK before reaching blk (instructions of blk itself are not looked at).
+func (ff *FuncFacts) EveryPathHasOr(blk *ssa.BasicBlock, ok func(Fact) bool, instrOK func(ssa.Instruction) bool) bool {
 	for _, f := range ff.FactsAt(blk) {
 		if ok(f) {
 			return true
 		}
+	}
+	hasInstr := func(b *ssa.BasicBlock) bool {
+		if instrOK == nil {
+			return false
+		}
+		for _, in := range b.Instrs {
+			if instrOK(in) {
+				return true
+			}
+		}
+		return false
 	}
 	onStack := map[*ssa.BasicBlock]bool{}
 	memo := map[*ssa.BasicBlock]bool{}
@@ -935,6 +968,9 @@ func (ff *FuncFacts) EveryPathHas(blk *ssa.BasicBlock, ok func(Fact) bool) bool 
 					good = true
 					break
 				}
+			}
+			if !good && hasInstr(p) {
+				good = true
 			}
 			if !good {
 				good = rec(p)
